@@ -10,9 +10,9 @@ RULE = ('every function of 3 variables embedded in a manager with 1-2 extra unus
         'name; count(u, n) for n = |support| .. |support|+3 equals the model count, default count == models over the '
         'support, ValueError for n < |support|; pick_iter(u, care) for every subset and superset care set: each '
         'assignment satisfies u however completed, mentions every care variable, no two overlap, union == models; '
-        'pick is one of them, None iff false; collections between the functions of one manager (node numbers re-used). non-trivial: non-constant function; distinct = (truth table, order, extra).')
+        'pick is one of them, None iff false; collections between the functions of one manager (node numbers re-used); level-shift histories (lib.shift_history: support / is_essential / count / pick_iter of held functions between undeclarations and declarations of unused variables, swaps and re-use of node numbers). non-trivial: non-constant function; distinct = (truth table, order, extra).')
 EXHAUSTIVE = {'quick': False, 'thorough': True}
-REQUIRED_COUNTERS = ['support-checked', 'count-checked', 'pick-checked', 'queries-after-collection']
+REQUIRED_COUNTERS = ['support-checked', 'count-checked', 'pick-checked', 'queries-after-collection', 'queries-after-level-shift']
 CORE = ['x', 'y', 'z']
 
 
@@ -33,6 +33,9 @@ def chunks(tier, seed):
     for o, extra in layouts:
         for part in range(2):
             out.append(('case_all3', [dict(order=o, extra=extra, part=part, seed=seed)]))
+    ns = 60 if tier == 'quick' else 600 * DEEP
+    for k in range(0, ns, 10):
+        out.append(('case_shift', [dict(seed=seed * 4423 + k + i, steps=40) for i in range(10)]))
     n5 = 100 if tier == 'quick' else 2000 * DEEP
     for k in range(0, n5, 20):
         out.append(('case_sampled', [dict(seed=seed * 97 + k, count=20, nvars=4 + (k // 20) % 2)]))
@@ -209,4 +212,44 @@ def case_many_variables(c, res):
             b.collect_garbage()
         keys.append((tuple(lv), t))
     res.evals += c['count'] - 1
+    return keys
+
+
+def case_shift(c, res):
+    """support / is_essential / count / pick_iter of a few held functions while unused variables are undeclared / declared, levels swapped
+    and node numbers re-used (lib.shift_history)"""
+    keys = []
+
+    def query(m, b, names, held, rnd):
+        n = len(names)
+        u, t = rnd.choice(held)
+        supp = {names[j] for j in tt_support(t, n)}
+        auto = rnd.random() < .4
+        got = m.support(m._wrap(u)) if auto else b.support(u)
+        require(set(got) == supp, 'support#post:exactly-essential',
+                lambda: f'after declarations changed: tt={t} u={u} order={dict(b.vars)}: {sorted(got)} vs {sorted(supp)}')
+        lv = b.support(u, as_levels=True)
+        require(lv == {b.vars[x] for x in supp}, 'support#post:levels', lambda: f'{lv} order={dict(b.vars)}')
+        x = rnd.choice(list(b.vars))
+        require(bool(b.is_essential(u, x)) == (x in supp), 'is_essential#post', lambda: f'tt={t} u={u} var={x} order={dict(b.vars)}')
+        # models over the support
+        sidx = sorted(names.index(v) for v in supp)
+        proj = set()
+        for k in range(1 << n):
+            if (t >> k) & 1:
+                proj.add(tuple((k >> j) & 1 for j in sidx))
+        extra = rnd.randint(0, 2)
+        cnt = m.count(m._wrap(u), len(supp) + extra) if auto else (b.count(u, len(supp) + extra) if extra else b.count(u))
+        require(cnt == len(proj) << extra, 'count#post:number-of-models',
+                lambda: f'after declarations changed: tt={t} u={u} nvars=|support|+{extra} order={dict(b.vars)}: {cnt} vs {len(proj) << extra}')
+        seen = set()
+        for a in (m.pick_iter(m._wrap(u)) if auto else b.pick_iter(u)):
+            require(set(a) == supp, 'pick_iter#post:mentions-exactly-the-support', lambda: f'tt={t} u={u}: {a} vs {sorted(supp)}')
+            key = tuple(int(a[names[j]]) for j in sidx)
+            require(key in proj and key not in seen, 'pick_iter#post:model-once', lambda: f'tt={t} u={u}: {a}')
+            seen.add(key)
+        require(len(seen) == len(proj), 'pick_iter#post:all-models', lambda: f'tt={t} u={u}: {len(seen)} of {len(proj)}')
+        res.count('queries-after-level-shift')
+        keys.append((t, tuple(sorted(b.vars, key=b.vars.get))))
+    shift_history(c, res, query)
     return keys
